@@ -16,6 +16,9 @@ if os.path.exists(mp):
     for l in open(mp):
         m=re.match(r'(C\d+-\d+): property=(C\d+) rc=(\d+) reports=(\d+)\s+(?:VIOLATION|UNDECIDED)?\s*(\S+): \[([^\]]+)\] (\S+)',l)
         if m: matrix[m.group(1)]=dict(rc=m.group(3),n=m.group(4),where=m.group(5),rule=m.group(6),key=m.group(7))
+        else:
+            m=re.match(r'(C\d+-\d+): property=(C\d+) rc=0 reports=0',l)
+            if m: matrix[m.group(1)]=dict(rc='0',n='0',where='',rule='',key='')
 def wrap(s,ind=''):
     return '\n'.join(textwrap.wrap(s,width=96,initial_indent=ind,subsequent_indent=ind,break_long_words=False,break_on_hyphens=False))
 def gen_props():
@@ -37,8 +40,11 @@ def gen_props():
         out.append('')
         seeds=sorted(k for k in matrix if k.startswith(pid+'-'))
         out.append(wrap('**Pinned tree (after the fix commits):** %d obligations (floor %d) over configurations %s; %d known finding(s).'%(c['obligations'],c['floor'],', '.join(c['configs']),c.get('known_findings',0))))
-        if seeds:
-            out.append(wrap('**Seeded changes caught:** '+'; '.join('%s → `%s` %s'%(s,matrix[s]['rule'],matrix[s]['key']) for s in seeds)+'.'))
+        caught=[s for s in seeds if matrix[s]['rc']!='0']; missed=[s for s in seeds if matrix[s]['rc']=='0']
+        if caught:
+            out.append(wrap('**Seeded changes caught:** '+'; '.join('%s → `%s` %s'%(s,matrix[s]['rule'],matrix[s]['key']) for s in caught)+'.'))
+        if missed:
+            out.append(wrap('**Seeded changes not reported (outside the decided clause, see §7):** '+', '.join(missed)+'.'))
         out.append('')
     return '\n'.join(out)
 def gen_seeds():
@@ -51,7 +57,9 @@ def gen_seeds():
         if len(s)>330: s=s[:327]+'…'
         if len(n)>200: n=n[:197]+'…'
         mx=matrix.get(name)
-        rep='`%s` · %s (%s report(s), exit %s)'%(mx['rule'],mx['key'],mx['n'],mx['rc']) if mx else '(see MATRIX.txt)'
+        if mx and mx['rc']=='0': rep='**not reported** — '+(m.get('verdict') or 'outside the decided clause')
+        elif mx: rep='`%s` · %s (%s report(s), exit %s)'%(mx['rule'],mx['key'],mx['n'],mx['rc'])
+        else: rep='(see MATRIX.txt)'
         out.append('| %s | %s | %s | %s | %s |'%(name,m.get('property'),s,n,rep))
     return '\n'.join(out)
 blocks={'props':gen_props(),'seeds':gen_seeds()}
